@@ -643,3 +643,14 @@ def count_event_cases(run, trace_path):
             n += 1
     run.evaluations += n
     run.notes.append("distinct cases counted per distinct event line (%d events)" % n)
+
+
+def sim_walks(run, module, cfg, num, depth, tag="sim"):
+    """random walks of a (small) configuration via TLC -simulate -> list of label paths.  Edge covers say nothing about code
+    state outside the projection (caches, counters); walks add path diversity."""
+    res = tlc(run, module, cfg, mode="sim", sim=(max(1, num // 4), depth, run.path(tag)), workers=4, tag=tag, coverage=False)
+    if res.get("infra") and "Finished" not in res["out"]:
+        raise Infra("simulation of %s/%s failed:\n%s" % (module, cfg, res["out"][-2000:]))
+    paths = sim_paths(run.path(tag))
+    run.extra.setdefault("simulated_behaviours", {})[tag] = len(paths)
+    return paths
